@@ -6,7 +6,10 @@ from vlib import g_str, g_list
 COQ_DEPS = ['Group/GroupName.vo']
 
 NAMES = ['C', 'H', 'O', 'C[d]', 'C[.]', 'CO', 'Pt']
-EXTRA = ['N[A]', 'Cb', 'C2H', 'a b', '[Ru]', 'ét', '1a', 'H2', '-', 'C[t]', 'x9y']
+EXTRA = ['N[A]', 'Cb', 'C2H', 'a b', '[Ru]', 'ét', '1a', 'H2', '-', 'C[t]', 'x9y', 'Co', 'co', 'PT', 'h', 'c']
+# names that differ only in letter case are different names: all orders of multisets with repeated names and their case variants
+CASEMS = [('CO', 'CO', 'Co'), ('CO', 'CO', 'Co', 'co'), ('PT', 'Pt', 'Pt'), ('H', 'H', 'h'), ('C', 'C', 'c', 'c'), ('CO', 'Co', 'Co', 'H'),
+          ('C[d]', 'C[D]', 'C[d]'), ('c', 'C', 'CO', 'co')]
 CENTRES = ['C', 'O', 'C[d]', 'CO', 'Pt', '', 'N[A]', 'C1']
 MALFORMED = ['C(2)', 'C()3', '(3)', 'C((H))', 'C(H)(2)', 'C(H', 'C)H(', '', '()', ')(',
              'C(H)2(3)', 'C(H)23', 'C(H)0', 'C(H)1', 'C(H)01', 'C(H)(H)', 'C(H)2(H)',
@@ -59,6 +62,8 @@ def classes(ctx):
         for k in range(0, maxk + 1):
             for ms in itertools.combinations_with_replacement(NAMES, k):
                 out.append((c, ms, True))
+    for ms in CASEMS:
+        out.append((rng.choice(CENTRES[:4]), tuple(sorted(ms)), True))
     for _ in range(ctx.n(60, 600)):
         k = rng.randint(1, 9)
         ms = tuple(sorted(rng.choice(NAMES + EXTRA) for _ in range(k)))
